@@ -1803,6 +1803,63 @@ func poolRunCloseScenario(t *testing.T, cfg poolCloseCfg, rep *vreport, rng *vrn
 		}
 		poolWaitFor(700*time.Millisecond, func() bool { return poolSessionCount(l)-before == cfg.Clients })
 		createdAfterClose = poolSessionCount(l) - before
+	case "accept-races-close":
+		// Accept is called while Listener.Close sits between close(l.die) and the drain of the accept
+		// backlog (frozen there: the harness holds the mutex of every waiting session, which the
+		// drain's s.Close() needs).  Each Accept returns a session - then the application owns it and
+		// closes it - or an error; either way no session may be left that nobody can reach.
+		for i := 0; i < cfg.Clients; i++ {
+			p := mkClient(i)
+			p.s.Write(p.send[:800])
+		}
+		poolWaitFor(3*time.Second, func() bool { return len(l.chAccepts) == cfg.Clients })
+		l.sessionLock.RLock()
+		var waiting []*UDPSession
+		for _, ws := range l.sessions {
+			waiting = append(waiting, ws)
+		}
+		l.sessionLock.RUnlock()
+		for _, ws := range waiting {
+			ws.mu.Lock()
+		}
+		closed := make(chan struct{})
+		go func() { l.Close(); close(closed) }()
+		poolWaitFor(time.Second, func() bool {
+			select {
+			case <-l.die:
+				return len(l.chAccepts) < cfg.Clients // die closed and the drain holds its first session
+			default:
+				return false
+			}
+		})
+		var handed []*UDPSession
+		for i := 0; i < cfg.Clients-1; i++ {
+			l.SetReadDeadline(time.Now().Add(200 * time.Millisecond))
+			if as, err := l.AcceptKCP(); err == nil && as != nil {
+				handed = append(handed, as)
+			}
+		}
+		for _, ws := range waiting {
+			ws.mu.Unlock()
+		}
+		<-closed
+		for _, as := range handed { // the application closes what it was given
+			as.Close()
+		}
+		rep.Distribution["accept_races_close_handed"] += len(handed)
+		lost := 0
+		for _, ws := range waiting {
+			if !poolWaitFor(500*time.Millisecond, ws.isClosed) {
+				lost++
+			}
+		}
+		rep.Monitors["close_accept_race_sessions"] += len(waiting)
+		if lost > 0 {
+			rep.violate("close-leak:accept-races-close", fmt.Sprintf("scenario %s: %d of %d sessions that waited in the accept backlog while Accept raced Listener.Close were neither handed to the application nor closed (%d were handed out)", cfg.Name, lost, len(waiting), len(handed)), replay)
+			for _, ws := range waiting {
+				ws.Close()
+			}
+		}
 	case "dispatch-races-close":
 		// Listener.Close runs to completion (die closed, backlog drained) while the monitor goroutine is
 		// in the middle of dispatching the first datagram of a new peer: it has passed its own die test
@@ -2119,6 +2176,10 @@ func TestVerifC15Close(t *testing.T) {
 	rounds := 10
 	if vThorough() {
 		rounds = 24
+	}
+	for i := 0; i < 2; i++ {
+		poolRunCloseScenario(t, poolCloseCfg{Name: fmt.Sprintf("accept-races-close/%d/own=%v", i, i%2 == 0), Point: "accept-races-close",
+			Order: []string{"listener", "client", "transport"}, Own: i%2 == 0, Clients: 12, Cipher: poolPickS(rng, "none", "aes")}, rep, rng, pump, grace)
 	}
 	for i := 0; i < rounds; i++ {
 		poolRunCloseScenario(t, poolCloseCfg{Name: fmt.Sprintf("dispatch-races-close/%d/own=%v", i, i%2 == 0), Point: "dispatch-races-close",
